@@ -679,6 +679,27 @@ theorem encrypt_dispatch_prefix_witness :
     encryptRoute "A128CBC-NOPAD" = some "EncryptSymmetric" := by
   decide
 
+/-- The source shapes the hand-written parts of the model rely on, as regenerated facts: the
+length guards of `aeskw.Wrap`/`Unwrap` (the model's `wrap`/`unwrap` guards), the RFC 3394 IV, the
+order tag-check → CBC → unpad in `aescbcaead.Open`, the MAC input `AD ‖ IV ‖ C ‖ AL` with the
+big-endian bit length, the MAC/ENC key split, the tag split of the ChaCha helper, and the
+constants.  If the source changes any of them this theorem stops checking. -/
+theorem model_assumptions_tie :
+    Generated.C03.aeskwWrapGuards = ["len(cek)%8 != 0", "len(cek) < 16"] ∧
+    Generated.C03.aeskwUnwrapGuards = ["len(cipherText) < 24 || len(cipherText)%8 != 0"] ∧
+    Generated.C03.aeskwDefaultIV = List.replicate 8 166 ∧
+    Generated.C03.aescbcaeadOpenOrder = ["hmac.Equal", "CryptBlocks", "padding.UnpadPKCS7"] ∧
+    Generated.C03.aescbcaeadMacInput = ["additionalData", "nonce", "ciphertext", "al"] ∧
+    Generated.C03.aescbcaeadAL = "binary.BigEndian.PutUint64(al, uint64(len(additionalData)<<3))" ∧
+    Generated.C03.aescbcaeadKeySplit = "macKey=p.key[0:p.macKeySize];encKey=p.key[len(p.key)-p.encKeySize:]" ∧
+    Generated.C03.chachaEncryptTagSplit = 16 ∧
+    Generated.C03.extConsts = [("aes.BlockSize", 16), ("chacha20poly1305.KeySize", 32),
+      ("chacha20poly1305.NonceSize", 12), ("chacha20poly1305.NonceSizeX", 24), ("chacha20poly1305.Overhead", 16)] ∧
+    Generated.C03.cbcHmacCtorErr = eKeyTypeMismatch ∧ Generated.C03.chachaNonceErr = eInvalidNonce ∧
+    Generated.C03.sentinels = [eUnsupportedAlgorithm, eKeyTypeMismatch, eInvalidNonce, eInvalidTag,
+      eInvalidPlaintextLength, eInvalidCiphertextLength] := by
+  decide
+
 /-! ## 7. signatures -/
 
 /-- The kinds of key the harness exercises. -/
